@@ -3,7 +3,7 @@ import Poulpy.Lemmas.EpPhase
 import Poulpy.Props.C07
 
 /-!
-# C04 — external products and CMux multiply by the GGSW plaintext within noise
+# C04 — external products and CMux multiply by the EpGGSW plaintext within noise
 
 Model: `Model/Core/Ep.lean` (`Core.epInternal`, `Core.glweExternalProduct`, `Core.cmux*`,
 `Core.matExternalProduct`), executed by `Driver/Ep.lean` and tied bit for bit to the four back ends
@@ -16,7 +16,7 @@ Layers
   is the digit-weighted sum of the phases of limb `l` of the matrix rows — for every shape, every
   secret, every digit vector (this is the whole `dsize = 1` external product and each pass `di` of
   the `dsize > 1` one).
-* B (`ep_identity`, `cmux_selects`): whatever way the phases of the GGSW rows are written as
+* B (`ep_identity`, `cmux_selects`): whatever way the phases of the EpGGSW rows are written as
   `m2 ⋆ w_q + e_q`, the product has phase `m2 ⋆ (Σ_q d_q ⋆ w_q) + Σ_q d_q ⋆ e_q` with the *same*
   `m2` — every error term explicit.  With `w_q = σ_{q mod cols}` on limb `q / cols` (what
   `ggsw_encrypt_sk` produces: row `r`, column `c` carries `m2·σ_c` at limb `(r+1)·dsize − 1`) the
@@ -70,7 +70,7 @@ example : phaseFlat 2 [[0, 1]] 2 (fun r => (vmpFlat 2 [[1, 2], [3, -1]]
       { n := 2, rows := 1, colsIn := 2, colsOut := 2, size := 1,
         data := [[[[5, 6]], [[7, 8]]], [[[1, 0]], [[0, 1]]]] } 0 2).getD r (zeroP 2)) 0 = [-29, 7] := by decide
 
-/-- **Layer B — external-product identity.**  If the phase of row `q` of the GGSW (at the limb
+/-- **Layer B — external-product identity.**  If the phase of row `q` of the EpGGSW (at the limb
 under consideration) is `m2 ⋆ w_q + e_q`, the digit-weighted sum of the rows has phase
 `m2 ⋆ (Σ_q d_q ⋆ w_q) + Σ_q d_q ⋆ e_q`: the same `m2` multiplies the recomposed input, every
 error term is explicit. -/
@@ -90,7 +90,7 @@ example : sumR 2 (fun q => Hal.negMul ([[1, 2], [3, 4]].getD q []) ([[7, 1], [0,
 
 /-- **`cmux_selects`.**  CMux computes `(t − f) ⊡ ggsw + f`.  Let `D = Σ_q d_q ⋆ w_q` be the gadget
 recomposition of the digits of `t − f`, assumed to be `T − F` (`T`, `F`: the phases of `t`
-— less the dropped limbs — and of `f` at this limb).  If the GGSW rows have phase
+— less the dropped limbs — and of `f` at this limb).  If the EpGGSW rows have phase
 `m2 ⋆ w_q + e_q`, then for the bit `m2 = 0` the output phase is **exactly** `F` plus the error sum,
 and for `m2 = 1` it is **exactly** `T` plus the same error sum — for every `t`, `f`, every shape.
 This is the statement the Boolean model of C13 (`evalFlat`) rests on. -/
@@ -122,7 +122,7 @@ example : polyAdd (sumR 2 (fun q => Hal.negMul ([[3, -1]].getD q []) ([[1, 5]].g
     (fun q hq => by have h0 : q = 0 := (by omega); subst h0; decide) (by decide)
 
 /-
-FULL STATEMENT (not proved in general): for every GGSW `g` (any `dsize`), every input `a` and every
+FULL STATEMENT (not proved in general): for every EpGGSW `g` (any `dsize`), every input `a` and every
 prior content `res0 res0'` / `tmp0 tmp0'` of the two scratch DFT buffers,
 `epInternal a g res0 tmp0 = epInternal a g res0' tmp0'`  (the result is determined by its inputs).
 History: this was FALSE of the code for `dsize ≥ 3` until poulpy d3c2e96 (pass `di = 0` shrank
@@ -133,8 +133,8 @@ follows, and the former witness is the regression example.  The general statemen
 `Buf.setFlat`/`Buf.act` plumbing lemmas (`_partial`: instance only).
 -/
 
-/-- the former witness: `n = 1`, rank 1, `dsize = 3`, GGSW of 4 limbs -/
-def staleG : GGSW :=
+/-- the former witness: `n = 1`, rank 1, `dsize = 3`, EpGGSW of 4 limbs -/
+def staleG : EpGGSW :=
   { base2k := 4, n := 1, rank := 1, dsize := 3, dnum := 1, size := 4,
     cells := [[[[1], [0], [0], [0]], [[0], [0], [0], [0]]], [[[0], [0], [0], [0]], [[1], [0], [0], [0]]]] }
 
